@@ -68,7 +68,7 @@ CLAIMED = {
     "C18": ("DESIGN.md §4 C18",
             "Every SYST:ERR? issued in seeded queue/heap histories (texts 0..400 characters, quotes at and around the 255 boundary and at heap-wrap part "
             "boundaries, codes with and without description, errors pushed from inside the write callback while a response is being sent) is parsed by an independent IEEE 488.2 reader: one valid string, content a prefix of "
-            "description;text, <= 255 characters, not cut earlier than the escaped-length limit allows, entry consumed. malloc and static-heap builds, and the build with a user error list (descriptions containing quotes).",
+            "description;text, <= 255 characters, not cut earlier than the escaped-length limit allows, entry consumed. malloc and static-heap builds, the build with a user error list (266 descriptions, some containing quotes) and the same without device-dependent information.",
             "The 255 limit is accepted on either reading (escaped or unescaped length). Descriptions are taken from the library's X-macro list as data.",
             "deterministic simulation: seeded heap-layout histories, independent response reader as oracle"),
     "C20": ("DESIGN.md §4 C20",
